@@ -610,8 +610,9 @@ int disasm_arm64(
 
           if (v == 1)
           {
-            size |= ((opcode >> 23) & 1) << 2;
-            reg_name = scalar_size[size];
+            int scalar = size | (((opcode >> 23) & 1) << 2);
+            if (scalar > 4) { continue; }
+            reg_name = scalar_size[scalar];
           }
             else
           {
@@ -650,8 +651,9 @@ int disasm_arm64(
 
           if (v == 1)
           {
-            size |= ((opcode >> 23) & 1) << 2;
-            reg_name = scalar_size[size];
+            int scalar = size | (((opcode >> 23) & 1) << 2);
+            if (scalar > 4) { continue; }
+            reg_name = scalar_size[scalar];
           }
 
           if (imm == 0)
@@ -683,8 +685,9 @@ int disasm_arm64(
 
           if (v == 1)
           {
-            size |= ((opcode >> 23) & 1) << 2;
-            reg_name = scalar_size[size];
+            int scalar = size | (((opcode >> 23) & 1) << 2);
+            if (scalar > 4) { continue; }
+            reg_name = scalar_size[scalar];
           }
 
           snprintf(instruction, length, "%s %c%d, 0x%04x (offset=%d)",
